@@ -144,26 +144,33 @@ TEXTS = [
     ('non_ascii', 'café'),
     ('long', 'x' * 300),
 ]
+# coarse classes for failure signatures: what the text demands of a writer
+CLASS_OF = {
+    'backslash': 'escapable', 'trailing_backslash': 'escapable', 'apostrophe': 'escapable', 'tab': 'escapable',
+    'lead_slash': 'lead_special', 'only_slash': 'lead_special', 'lead_dslash': 'lead_special',
+    'lead_star_comment': 'lead_special', 'lead_hash': 'lead_special',
+}
+TEXTS = [(CLASS_OF.get(variant, variant), text) for variant, text in TEXTS]
 NAME_TEXTS = [t for t in TEXTS if t[0] not in ('long',)]
 
 FEATURES: dict = {
     'shader': [('plain', 'LightmappedGeneric'), ('len1', 'a'), ('patch', 'Patch'), ('dots', 'SDK_Shader.v1-2'),
-               ('space', 'My Shader'), ('lead_slash', '/Shader'), ('lead_hash', '#Shader'), ('brace', 'Sha{der'),
-               ('apostrophe', "Sha'der"), ('non_ascii', 'Shäder')],
+               ('needs_quotes', 'My Shader'), ('lead_special', '/Shader'), ('lead_special', '#Shader'),
+               ('needs_quotes', 'Sha{der'), ('needs_quotes', "Sha'der"), ('non_ascii', 'Shäder')],
     'n_params': [('three', 3), ('none', 0), ('one', 1), ('two', 2)],
     'pname': [('plain', '$surfaceprop'), ('upper', '$SurfaceProp'), ('no_sigil', 'surfaceprop'),
               ('flag_prefix', '!srgb?$detail'), ('index', '$color2[1]')] + NAME_TEXTS,
     'pvalue': [('plain', 'dirt'), ('number', '.5'), ('var', '$other')] + TEXTS,
     'n_blocks': [('one', 1), ('none', 0), ('two', 2), ('three_same_name', 3)],
     'bname': [('plain', '>=dx90_20b'), ('insert', 'insert'), ('case', 'LightmappedGeneric_DX8'), ('space', 'a b'),
-              ('lead_slash', '/blk'), ('backslash', 'a\\b'), ('apostrophe', "it's"), ('lead_hash', '#blk')],
+              ('lead_special', '/blk'), ('escapable', 'a\\b'), ('escapable', "it's"), ('lead_special', '#blk')],
     'bshape': [('leaf_and_nested', 'leaf_and_nested'), ('leaf_only', 'leaf_only'), ('empty', 'empty'),
                ('deep', 'deep'), ('nested_empty', 'nested_empty'), ('dup_keys', 'dup_keys')],
     'bleaf_name': [('plain', '$bumpmap'), ('upper', '$BumpMap')] + NAME_TEXTS,
     'bleaf_value': [('plain', 'tex/normal')] + TEXTS,
     'n_proxies': [('one', 1), ('none', 0), ('two', 2), ('three_same_name', 3)],
     'pxname': [('plain', 'Sine'), ('space', 'My Proxy'), ('proxies', 'Proxies'), ('case', 'textureSCROLL'),
-               ('backslash', 'a\\b'), ('apostrophe', "it's")],
+               ('escapable', 'a\\b'), ('escapable', "it's")],
     'pxshape': [('leaves', 'leaves'), ('empty', 'empty'), ('nested', 'nested'), ('single', 'single')],
     'pxleaf_name': [('plain', 'sinemin'), ('upper', 'SineMin')] + NAME_TEXTS,
     'pxleaf_value': [('plain', '0')] + TEXTS,
@@ -197,7 +204,10 @@ def evaluate(setting: dict) -> Result:
     return res
 
 
-EXPLORER = Explorer(PART, FEATURES, evaluate, inert)
+GROUPS = {'pname': 'param_name', 'pvalue': 'param_value', 'bname': 'tree_block_name', 'pxname': 'tree_block_name',
+          'bleaf_name': 'tree_leaf_name', 'pxleaf_name': 'tree_leaf_name',
+          'bleaf_value': 'tree_leaf_value', 'pxleaf_value': 'tree_leaf_value'}
+EXPLORER = Explorer(PART, FEATURES, evaluate, inert, GROUPS)
 
 
 # ---------------------------------------------------------------------------------------------
@@ -228,7 +238,7 @@ def check_sample(acc: core.Acc, rel: str) -> None:
         acc.nontrivial += 1
     acc.outcome((PART, tuple(k for k, _ in res.fails) or 'ok', 'file:' + rel))
     for kind, detail in res.fails:
-        acc.fail(kind, case, f'[vmt] {detail}', part=PART, culprit='sample_file')
+        acc.fail(kind, case, f'[vmt] {detail}', part=PART, cause='sample_file')
 
 
 def _sample_shard(rels: list) -> core.Acc:
